@@ -146,6 +146,8 @@ TrRoutes ==
   /\ Check("C17", (rt = prevRt /\ Ev.res = "ok") => RoutesOK(Ev.val), <<"routes after rejected call", Ev.val>>)
   /\ Check("C18", (rt.cfg.trace /\ Ev.res = "ok") => \A p \in DOMAIN Ev.val : "TRACE" \in ToSet(Ev.val[p]), <<"TRACE missing from Routes()", Ev.val>>)
   /\ Check("C19", "hasMirror" \in DOMAIN Ev => (Ev.mirror = Ev.val /\ Ev.mres = Ev.res), <<"facade routes", Ev.val, Ev.mirror>>)
+  \* C19 also fixes the MEANING of the facade calls (Prefix.Clean removes exactly the routes whose pattern starts with the prefix ...)
+  /\ Check("C19", ("hasMirror" \in DOMAIN Ev /\ Ev.res = "ok") => RoutesOK(Ev.val), <<"routes after facade calls", Ev.val, "live", SetSeq(Live(rt))>>)
 
 R == Ev.r
 WitOK == WitValid(rt, Ev.wit, Ev.wps, Ev.path)
@@ -192,6 +194,7 @@ ServeGeneral ==
        IN /\ Check(IF rt.addOnly THEN "C02" ELSE "C03", \E o \in O : Same(o),
                    <<"resolution", Ev.method, Ev.path, "got", R.kind, R.pat, R.params, "admissible", SetSeq({<<o.kind, o.pat, o.params>> : o \in O})>>)
           /\ Check("C03", WitOK => \E o \in O : Same(o), <<"witness", Ev.wit, Ev.path, R.kind, R.pat>>)
+          /\ Check("C19", (Ev.hasMirror /\ WitOK) => \E o \in O : Same(o), <<"dispatch after facade calls", Ev.wit, Ev.path, R.kind, R.pat>>)
   \* C17: after a rejected call (rt = prevRt) everything is still what the unchanged table prescribes
   /\ Check("C17", (lastEv = "handle" /\ rt = prevRt /\ rt.addOnly /\ ~HasLong(rt)) => \E o \in ServeOutcomes(rt, Ev.method, Ev.path) : Same(o),
            <<"dispatch differs from the unchanged table after a rejected call", Ev.method, Ev.path, R.kind, R.pat>>)
